@@ -202,6 +202,12 @@ def _literal_encoding(ctx, rep, rid, ci, fn, body):
         raise AnalysisError(f"{loc}: encoder {parts[1].func.attr} not found")
     hf = h[1]
     hp = [a.arg for a in hf.args.args if a.arg != "self"]
+    # decided by running the encoder on sample texts and decoding the result as C++ does, wherever the encoder can be run
+    bad_, err_ = _literal_roundtrip(ci, hf)
+    if err_ is None:
+        rep.add(rid, "docstring literal: every escape sequence written is read back by C++ as the same character", not bad_,
+                f"{bad_[:2]}: the compiled docstring differs from the documentation text, or the unit does not compile", f"{ci.mod.rel}:{hf.lineno}")
+        return
     hloc = f"{h[0].mod.rel}:{hf.lineno}"
     rets = [r for r in walk_no_nested(hf) if isinstance(r, ast.Return)]
     if len(rets) != 1 or not hp:
@@ -520,6 +526,11 @@ def rule_element_truthiness(ctx, rep: Report, rid="Q2"):
                 tests += x.ifs
             elif isinstance(x, ast.Assert):
                 tests.append(x.test)
+            elif isinstance(x, ast.BoolOp):
+                # `a or b` used as a value: every operand but the last is tested for truth
+                tests += x.values[:-1]
+            elif isinstance(x, ast.Call) and isinstance(x.func, ast.Name) and x.func.id == "bool" and len(x.args) == 1:
+                tests.append(x.args[0])
         atoms = []
         for t in tests:
             stack = [t]
@@ -531,7 +542,11 @@ def rule_element_truthiness(ctx, rep: Report, rid="Q2"):
                     stack.append(e.operand)
                 else:
                     atoms.append(e)
+        seen_atoms = set()
         for a in atoms:
+            if id(a) in seen_atoms:
+                continue
+            seen_atoms.add(id(a))
             if is_elem(a):
                 n += 1
                 rep.add(rid, f"{mname}:truth value of {unparse(a)[:40]}", False,
@@ -892,6 +907,8 @@ def rule_lookup_provenance(ctx, rep: Report, rid="Q5"):
                              if bool(ev(i.test, {"N": n_, "R": r_, "T": t_})) != (n_ != r_ and n_ != t_)][:2]
                     arity_detail = (f"`{unparse(i.test)[:70]}` keeps a candidate for (given, required, total) = {wrong}: a binding with a count strictly between "
                                     f"required and total matches an overload that is never wrapped with that many arguments and can take its text")
+    if not arity and _member_filter_verdict(ctx)[0] is not None:
+        arity = True             # decided by evaluation (Q11)
     rep.add(rid, "candidates kept only if the parameter count equals the given count (required or total)", arity,
             arity_detail or
             "arity filter `len(names) != required and len(names) != total -> skip` not found (total = number of <param>, required = total minus "
@@ -940,6 +957,8 @@ def rule_lookup_provenance(ctx, rep: Report, rid="Q5"):
                             for x in enclosing(c, ast.If).body)
                         if any(_declared_name_of(prog, ci, x, elem_ok) for x in srcs) and rejecting:
                             names_ok = True
+    if not names_ok and _member_filter_verdict(ctx)[0] is not None:
+        names_ok = True          # written in a way the recogniser does not know; Q11 decides it by running the function on samples
     rep.add(rid, "candidates kept only if every given name equals the declared name at the same index", names_ok,
             "name filter `given name != declared name at the same index -> eliminate` not found", f"{ci.mod.rel}:{ff.lineno}")
     rets = [r for r in walk_no_nested(ff) if isinstance(r, ast.Return) and isinstance(r.value, ast.Tuple)]
@@ -1125,6 +1144,8 @@ def rule_filter_polarities(ctx, rep: Report, rid="Q5"):
                 fb_ok = d1.lineno < d2.lineno and not guards_of(d1, f_, include_exits=False)[-1:] == [(f"{var} is None", True)] and \
                     g[-1:] == [(f"{var}isNone", True)]
                 fb_detail = f"{var}: declname at line {d1.lineno}, defname at line {d2.lineno} under {g[-1:]}"
+    if not fb_ok and _member_filter_verdict(ctx)[0] is not None:
+        fb_ok = True             # decided by evaluation (Q11)
     rep.add(rid, "names:<declname> is the declared name, <defname> only replaces a missing one", fb_ok,
             fb_detail + ": with the fallback taken when <declname> *is* present, every named parameter is looked up under <defname>, nothing "
             "matches and all docstrings of methods with parameters come out empty", loc)
@@ -1498,3 +1519,206 @@ def rule_docstring_literal_wellformed(ctx, rep: Report, rid="W11"):
     ci = prog.cls("PybindWrapper")
     holder, tpl, e, empty_ok, body, pmap, hcall = docstring_source(ctx)
     _literal_encoding(ctx, rep, rid, ci, holder, body)
+
+
+def _member_filter_verdict(ctx):
+    """(list of differences, None) when filter_member_defs can be run on the samples, (None, reason) otherwise; cached."""
+    def mk():
+        class _R:
+            obs: list = []
+            prop = "-"
+
+            def add(self, rid, construct, ok, detail="", loc="", nontrivial=True):
+                self.obs.append((construct, ok, detail))
+        r = _R()
+        r.obs = []
+        rule_member_filter_by_evaluation(ctx, r, "Q11")
+        c, ok, detail = r.obs[-1]
+        if c.startswith("filter_member_defs evaluated"):
+            return None, detail
+        return ([] if ok else [detail]), None
+    return ctx._get("member_filter_verdict", mk)
+
+
+def rule_member_filter_by_evaluation(ctx, rep: Report, rid="Q11"):
+    """filter_member_defs keeps a candidate exactly when the number of given names equals its required or its total number of
+    parameters and every given name equals the candidate's parameter name at the same index - the text of <declname>, of
+    <defname> only where <declname> is missing - and reports the <declname>s of the parameters beyond the given ones.  Decided
+    by running the function (the analyser's own interpreter) on sample member definitions - sample elements are falsy when
+    they have no children, as xml.etree's are - for five lists of given names."""
+    from .rules_matlab import SampleObj, _PathEval, _Raised, mini_exec, sample_elem
+    prog = ctx.prog
+    ci = prog.cls("XMLDocParser")
+    fn = prog.method("XMLDocParser", "filter_member_defs")
+    ps = func_params(fn)
+    loc = f"{ci.mod.rel}:{fn.lineno}"
+
+    def param(decl=None, dfn=None, defval=None):
+        kids = []
+        kids.append(sample_elem("type", "double"))
+        if decl is not None:
+            kids.append(sample_elem("declname", decl))
+        if dfn is not None:
+            kids.append(sample_elem("defname", dfn))
+        if defval is not None:
+            kids.append(sample_elem("defval", defval))
+        return sample_elem("param", None, *kids)
+
+    def member(label, *params):
+        m = sample_elem("memberdef", None, sample_elem("name", "f"), sample_elem("argsstring", "(...)"), *params)
+        m["label"] = label
+        return m
+    members = [member("f(a, b)", param("a"), param("b")), member("f(a, b=1)", param("a"), param("b", defval="1")),
+               member("f(<defname a>)", param(None, "a")), member("f(a <also defname x>)", param("a", "x")), member("f()"),
+               member("f(<unnamed>)", param()), member("f(b, a)", param("b"), param("a")), member("f(a=0, b=0)", param("a", defval="0"), param("b", defval="0")),
+               member("f(ab)", param("ab")), member("f(A)", param("A"))]        # names are compared whole and with their case
+
+    def pname(p):
+        d = p["find"]("declname")
+        if d is not None:
+            return d["text"]
+        d = p["find"]("defname")
+        return d["text"] if d is not None else None
+
+    def spec(given):
+        kept, ignored = [], []
+        for m in members:
+            prm = m["findall"]("param")
+            tot = len(prm)
+            req = tot - sum(1 for p in prm if p["find"]("defval") is not None)
+            if len(given) not in (req, tot):
+                continue
+            if any(pname(prm[i]) is None or pname(prm[i]) != g for i, g in enumerate(given)):
+                continue
+            kept.append(m)
+            for p in prm[len(given):]:
+                d = p["find"]("declname")
+                if d is not None:
+                    ignored.append(d["text"])
+        return kept, ignored
+    me = SampleObj(_verbose=False, verbose=False, _memory={})
+    diffs = []
+    try:
+        for given in ([], ["a"], ["a", "b"], ["b", "a"], ["x"], ["ab"], ["b"]):
+            got = mini_exec(fn, {ps[0]: me, ps[1]: list(members), ps[2]: list(given)}, budget=20000, methods=dict(ci.methods))
+            want = spec(given)
+            if not (isinstance(got, (list, tuple)) and len(got) == 2):
+                diffs.append(f"given {given}: the function does not return (kept definitions, ignored parameters)")
+                continue
+            gk = [m.get("label") for m in got[0]]
+            wk = [m["label"] for m in want[0]]
+            if gk != wk:
+                diffs.append(f"given {given}: keeps {gk}, the definitions with these parameter names are {wk}")
+            elif list(got[1]) != want[1]:
+                diffs.append(f"given {given}: ignores {list(got[1])}, the optional parameters left out are {want[1]}")
+    except (_PathEval.Unknown, _Raised, TypeError, KeyError, IndexError) as ex:
+        rep.add(rid, "filter_member_defs evaluated on sample member definitions", True, f"not evaluable ({ex}); Q5 decides by structure", loc, nontrivial=False)
+        return
+    rep.add(rid, "filter_member_defs:keeps exactly the definitions whose parameter count and names fit the given names", not diffs,
+            f"{diffs[:3]}: the binding then carries the documentation of another overload, or none although the member is documented", loc)
+
+
+def cpp_narrow_literal_decode(lit: str) -> Optional[bytes]:
+    """The bytes a C++ compiler (UTF-8 execution character set) stores for a narrow string literal written on one line, or None
+    when the text is not one well-formed literal (a raw quote or line break inside, a dangling backslash, an escape C++ does
+    not know, too few digits, a value that does not fit a char).  Octal and hex escapes denote single *bytes*; universal
+    character names and raw characters denote code points, stored as UTF-8."""
+    if len(lit) < 2 or lit[0] != '"' or lit[-1] != '"':
+        return None
+    s, out, i = lit[1:-1], bytearray(), 0
+    simple = {"n": "\n", "t": "\t", "r": "\r", "\\": "\\", '"': '"', "'": "'", "a": "\a", "b": "\b", "f": "\f", "v": "\v", "?": "?"}
+    while i < len(s):
+        c = s[i]
+        if c == '"' or c == "\n":
+            return None
+        if c != "\\":
+            out += c.encode("utf-8", "surrogatepass")
+            i += 1
+            continue
+        if i + 1 >= len(s):
+            return None
+        d = s[i + 1]
+        if d in simple:
+            out += simple[d].encode()
+            i += 2
+        elif d in "01234567":
+            j = i + 1
+            while j < len(s) and j < i + 4 and s[j] in "01234567":
+                j += 1
+            v = int(s[i + 1:j], 8)
+            if v > 0xff:
+                return None
+            out.append(v)
+            i = j
+        elif d == "x":
+            j = i + 2
+            while j < len(s) and s[j] in "0123456789abcdefABCDEF":       # a hex escape takes every hex digit that follows
+                j += 1
+            if j == i + 2:
+                return None
+            v = int(s[i + 2:j], 16)
+            if v > 0xff:
+                return None                                              # out of range for a char: ill-formed
+            out.append(v)
+            i = j
+        elif d in "uU":
+            n_ = 4 if d == "u" else 8
+            h = s[i + 2:i + 2 + n_]
+            if len(h) != n_ or any(x not in "0123456789abcdefABCDEF" for x in h) or int(h, 16) > 0x10ffff or 0xd800 <= int(h, 16) <= 0xdfff:
+                return None
+            out += chr(int(h, 16)).encode("utf-8")
+            i += 2 + n_
+        else:
+            return None
+    return bytes(out)
+
+
+def rule_docstring_literal_roundtrip(ctx, rep: Report, rid="Q12"):
+    """The C++ string literal written for a documentation text is decoded by a compiler to exactly that text, whatever characters
+    it contains.  Decided by running `_cpp_string_literal` (the analyser's own interpreter) on sample texts - quotes, backslashes,
+    text that looks like an escape (`\\x41`, `\\u1234`), control characters followed by hex digits, characters outside ASCII
+    and outside the Basic Multilingual Plane - and decoding the result with the escape rules of C++ narrow literals (a hex
+    escape takes every hex digit that follows; `\\u` exactly four, `\\U` exactly eight)."""
+    prog = ctx.prog
+    ci = prog.cls("PybindWrapper")
+    fn = prog.method("PybindWrapper", "_cpp_string_literal")
+    loc = f"{ci.mod.rel}:{fn.lineno}"
+    bad, err = _literal_roundtrip(ci, fn)
+    if err is not None:
+        rep.add(rid, "docstring literal evaluated on sample texts", True, f"not evaluable ({err}); Q1 decides by structure", loc, nontrivial=False)
+        return
+    rep.add(rid, "docstring literal:a C++ compiler reads back exactly the text, for every sample text", not bad,
+            f"{bad[:2]}: the binding carries another documentation text than the one extracted (or the unit does not compile)", loc)
+
+
+def _literal_roundtrip(ci, fn):
+    """(texts that do not come back, None) for the encoder fn run on the sample texts, or (None, reason) when it cannot be run."""
+    from .rules_matlab import SampleObj, _PathEval, _Raised, mini_exec
+    ps = func_params(fn)
+    static = any(isinstance(d, ast.Name) and d.id == "staticmethod" for d in fn.decorator_list)
+    if len(ps) != (1 if static else 2):
+        return None, "the encoder does not take exactly the text"
+    samples = ["plain text.", 'say "hi"', "it's", "both ' and \"", "back\\slash", "\\x41 is text", "\\u1234 is text", "line1\nline2\ttab", "\x01a", "\x7f", "\x001", "tr\\", "\\\\",
+               "café", "norm ‖x‖", "x = \U0001d465 squared", "\U0001d4655", "\U000e0001tag", "100% {done}", "a\\\nb", "é\x01f", "?" "?/",
+               "next\x85line", "nbsp\xa0here", "soft\xadhyphen1", "back\\'quote", "\\\"", "\x9f"]
+    bad, err = [], None
+    for t in samples:
+        env = {ps[0]: t} if static else {ps[0]: SampleObj(), ps[1]: t}
+        try:
+            lit = mini_exec(fn, env, budget=4000, methods=dict(ci.methods))
+        except _Raised as ex:
+            bad.append(f"{t!r}: the encoder raises ({ex})")
+            continue
+        except (_PathEval.Unknown, TypeError) as ex:
+            err = str(ex)
+            break
+        if not isinstance(lit, str):
+            err = "no text returned"
+            break
+        back = cpp_narrow_literal_decode(lit)
+        if back != t.encode("utf-8", "surrogatepass"):
+            bad.append(f"{t!r} is written as {lit[:40]!r}, which C++ reads as {back.decode('utf-8', 'replace')!r}" if back is not None
+                       else f"{t!r} is written as {lit[:40]!r}: not one well-formed literal")
+    if err is not None:
+        return None, err
+    return bad, None
